@@ -11,9 +11,10 @@ PART = {
         "assumptions": ["kyber VerifyRecovered is the reference", "the harness generated the group key itself"],
     },
     "C02": {
-        "runs": [{"name": "beaconnet", "pkg": P, "run": "^TestVF_C02", "timeout": "30m", "timeout_thorough": "120m", "race_thorough": True}],
+        "runs": [{"name": "beaconnet", "pkg": P, "run": "^TestVF_C02_Net", "timeout": "30m", "timeout_thorough": "120m", "race_thorough": True},
+                 {"name": "streams-puts", "pkg": P, "run": "^TestVF_C02_Puts", "timeout": "30m", "timeout_thorough": "60m", "race": True}],
         "rule": W1 + "oracle: shadow map per node updated inside the base-store wrapper (head+1 only, write-once, previous-signature link, no Del, no cross-node disagreement), "
-                "then every store is re-opened and scanned (gap-free from genesis, links, equals what was put, equal across nodes)",
+                "then every store is re-opened and scanned (gap-free from genesis, links, equals what was put, equal across nodes incl. previous signatures where stored; networks may mix back-ends). || engine B: 2-4 writers race Puts (next round, future, stale, duplicate, same round with other bytes, wrong link) on the real callback/append/scheme store stack; the recorded ""call/return history is checked with porcupine against a sequential append-only chain and a tap below the stack asserts head+1; non-trivial = at least 3 accepted and one refused Put",
         "assumptions": ["BLS signatures are unique, so byte equality is the right notion of agreement"],
         "race_anchors": ["appendStore", "schemeStore"],
     },
